@@ -246,6 +246,45 @@ def check_group(g):
     return {"n": n, "nt": nt, "bad": bad, "traces": len(g)}
 
 
+class _Annotation:
+    """the least get_transcript_sequences asks of its annotation: a length and the exon entries (reading GTF attributes of single
+    entries is what the numpy/npstructures pair of this sandbox cannot do, so the exon table is built directly)"""
+    def __init__(self, exons):
+        self._exons = exons
+
+    def __len__(self):
+        return len(self._exons)
+
+    def get_exons(self):
+        return self._exons
+
+
+def check_transcripts(v):
+    """One complete state of spec/Transcripts.tla: the spliced sequence of every transcript."""
+    from bionumpy.datatypes import GFFExonEntry
+    from bionumpy.sequence.genes import get_transcript_sequences
+    L = "ACGTN"
+    ref = "".join(L[x] for x in v["ref"])
+    rows = [(a, b, t["strand"], "t%d" % (i + 1)) for i, t in enumerate(v["trs"]) for a, b in t["exons"]]
+    want = ["".join(L[x] for x in sq) for sq in v["seqs"]]
+    n_ = len(rows)
+
+    def run_():
+        ex = GFFExonEntry(["chr1"] * n_, ["src"] * n_, ["exon"] * n_, [r[0] for r in rows], [r[1] for r in rows], ["."] * n_, [r[2] for r in rows], ["."] * n_, ["x"] * n_,
+                          ["g_" + r[3] for r in rows], [r[3] for r in rows], ["e%d" % i for i in range(n_)])
+        res = get_transcript_sequences(_Annotation(ex), ref)
+        return res.name.tolist(), [x.upper() for x in res.sequence.tolist()]
+    o = outcome(run_)
+    bad = []
+    if o != ("ok", (["t%d" % (i + 1) for i in range(len(want))], want)):
+        all_len1 = all(len(w) == 1 for w in want)
+        bad.append({"what": "spliced transcript sequences differ from the joined exons (reverse-complemented as a whole on the minus strand)",
+                    "tags": {"op": "transcripts", "encoding": "ACGTN", "all_transcripts_length_one": all_len1, "kind": "raises" if o[0] != "ok" else "values"},
+                    "group": {"op": "transcripts", "kind": "raises" if o[0] != "ok" else "values", "len1": all_len1}, "vectors": [v], "expected": want, "observed": str(o)[:300]})
+    multi = any(len(t["exons"]) > 1 and t["strand"] == "-" for t in v["trs"])
+    return {"n": 1, "nt": ["tr|" + json.dumps(v["trs"])] if multi else [], "bad": bad, "traces": 1}
+
+
 def _biopython_table_check(vectors):
     from Bio.Data import CodonTable
     t = CodonTable.unambiguous_dna_by_id[1]
@@ -318,6 +357,14 @@ def run(ctx):
     import itertools as _it
     pick = [v for v in seqv if len(v["s"]) == 3 and "".join(v["s"]) in ("ACG", "TNA", "gcn", "NNT", "acT")]
     ctx.absorb(core.pmap_isolated(check_order, [(list(p), pick) for p in _it.permutations(["ascii", "ACGT", "ACGTN"])]))
+    # spliced transcripts (spec/Transcripts.tla): every complete state of <= 2 (3) transcripts of <= 2 exons on a ten-letter reference
+    rt = ctx.tlc("MC_Transcripts", tag="MC_Transcripts", spec="Spec", workers=8,
+                 constants={"Ref": "<- RefA", "MaxTranscripts": 2 if quick else 3, "MaxExons": 2, "ExonLens": [1, 2] if quick else [1, 2, 3]},
+                 invariants=["LengthIsSum", "StrandInvolution", "Emit"], properties=["Local"], coverage=True)
+    ctx.require_actions(rt, "MC_Transcripts", ["NewTranscript", "AddExon"])
+    # (quick tier: a deterministic sample of the complete states - every 15th, and every 6th of those with a minus-strand transcript of two exons)
+    tv = rt.vectors if not quick else [v for i, v in enumerate(rt.vectors) if i % 15 == 0 or (i % 6 == 0 and any(len(t["exons"]) > 1 and t["strand"] == "-" for t in v["trs"]))]
+    ctx.absorb(core.pmap(check_transcripts, tv, chunk=100))
     ctx.exhaustive = True
     return ctx.finish(RULE, assumptions=[
         "letters are compared case-insensitively (alphabet encodings decode to upper case; the property fixes the letter, not its case)",
@@ -328,6 +375,13 @@ def run(ctx):
 
 def replay(d):
     print("replay of C14 case:", d.get("what"), d.get("tags"))
+    if d["tags"].get("op") == "transcripts":
+        r = check_transcripts(d["vectors"][0])
+        for b in r["bad"][:3]:
+            print("  disagrees:", b["what"], "expected", str(b["expected"])[:200], "observed", str(b["observed"])[:200])
+        if not r["bad"]:
+            print("  agrees now")
+        return 1 if r["bad"] else 0
     r = check_group(d["vectors"])
     same = [b for b in r["bad"] if b["tags"] == d["tags"]]
     for b in same[:3]:
